@@ -30,7 +30,7 @@ var DefaultInitPkgs = []string{
 	"errors", "internal/oserror", "io", "io/fs", "strconv", "bytes", "strings", "bufio",
 	"encoding/hex", "unicode/utf8", "context", "sort", "syscall", "internal/bytealg", "math", "math/bits",
 	"github.com/spf13/pflag", "unicode", "internal/itoa", "path", "path/filepath", "internal/filepathlite",
-	"encoding", "slices", "cmp", "internal/stringslite", "time", "os", "flag",
+	"encoding", "slices", "cmp", "internal/stringslite", "time", "os", "flag", "github.com/github/go-pipe/pipe",
 }
 
 func Load(cfg LoadConfig) (*Interp, []*packages.Package, error) {
